@@ -50,6 +50,16 @@ T('C18',
   'Model checking over schedules and inputs: bounded exhaustive, R<=3 n<=4 (thorough R<=4 n<=6), all R^n assignments of samples to ranks, both forced arrival orders at every collective (bit-identical observations required, divergence is a harness error), for OnlineVariance.update/parallelVariance directly and for Optimizer.generate_profiles / compute_derived_trace / fit() with a nestle double where every rank owns its model, observation and optimiser; every rank must reproduce the two-pass weighted variance of all samples and the single-process traces; each sample processed exactly once; collective mismatches and deadlocks are detected by the simulator (timeouts, never a hang).',
   'mpi4py not installed: rank identity, collective semantics and pickle serialisation are simulated, MPI progress/failure is not; ranks are threads sharing process singletons; weight lattice {0,1e-300,0.1,0.5,1}; all-zero weight vectors excluded (variance undefined)')
 
+T('C10',
+  'bounded exhaustive enumeration (small scope) of gas-profile and mixture configurations on the real TaurexChemistry/Gas classes against an independent reference (exact rational unity test, mixture filling, own formula parser for molecular masses)',
+  'Bounded exhaustive model checking of composition: every enumerated configuration (5 profile types x 11 (thorough 49) layer counts x 49 control pairs x type letters; 4 fill lists x 5 ratio letters x 13 profile letters per trace slot incl. sums exactly 1, 1+1e-12, 1.2 and exceeding only at the top/surface x opacity-availability sets in cross-section and k-table mode with a decoy set in the other store) is executed on fresh real objects and compared: non-negative, columns sum to one, fill ratios exact, mu = sum chi*m, rejection as InvalidChemistryException above unity, active/inactive split by availability with aligned rows, every profile type finite, one value per layer and inside its control range.',
+  'float values on the stated lattice plus two seed-generic values; totals within 4 eps of 1 accept either verdict; deactivated/forced-active molecule overrides not enumerated; profile shape beyond range/finite/length is not part of the statement; numpy trusted')
+
+T('C11',
+  'bounded exhaustive enumeration of model configurations on the real Transmission/Emission models against an independent hydrostatic reference integration; lengths and values of every exposed, dictionary and HDF5-stored per-layer profile',
+  'Bounded exhaustive model checking of the vertical structure: product of layer counts (1-100) x pressure ranges x planets x temperature letters x molecular-weight letters x 8 pressure sources (simple, array, file incl. reverse/units/columns) x 2 model families (quick: core product + deviations; thorough: full product); levels strictly decreasing with geometric-mean layers, altitude/thickness/gravity/scale height/density equal to the bottom-up hydrostatic reference, and every per-layer attribute, every generate_profiles() entry and every dataset written by store_profiles has exactly one entry per layer aligned by value with the reference.',
+  'array/file sources N>=2; non-monotone levels derived from strongly irregular tabulated pressures are counted, not judged (statement premise: decreasing levels); unbound-atmosphere letters compared by value only; T and mu profiles are inputs (C12/C10); numpy/h5py trusted')
+
 
 def main():
     props = [json.loads(l) for l in open(os.path.join(VERIF, 'properties.jsonl'))]
